@@ -8,7 +8,7 @@ import os
 from ..model import REGEX, ENFA, FA_EPSILON
 from . import names
 from .common import site_of
-from .flow import (min_len as _min_len, Oblig, calls, events, deps_of, arg_deps, SELF, P, result_locs, facts_on_path, has_fact,
+from .flow import (own, min_len as _min_len, Oblig, calls, events, deps_of, arg_deps, SELF, P, result_locs, facts_on_path, has_fact,
                    check_escapes)
 
 RO = "pyformlang.regular_expression.regex_objects"
@@ -110,7 +110,7 @@ def run(eng, rep, tier):
         if not name.startswith("_process_to_enfa"):
             continue
         sfn = interp.run_entry(f, REGEX)
-        for ev in sfn.events:
+        for ev in own(sfn):
             if ev.kind == "call" and ev.callee.rsplit(".", 1)[-1] in ("add_transition", "_add_epsilon_transition_in_enfa_between"):
                 hit = [fct for fct in ev.facts if "Empty" in fct[0] and "isinstance" in fct[0] and fct[1]]
                 if hit:
@@ -178,8 +178,8 @@ def run(eng, rep, tier):
             continue
         for m in ("get_str_repr", "get_cfg_rules"):
             f = prog.find_method(q, m)
-            own = f is not None and f.cls.qname not in (RO + ".Node", RO + ".Operator")
-            ob.decide("R7", "C05.2", f or tn, "node-overrides:%s.%s" % (ci.name, m), own,
+            overrides = f is not None and f.cls.qname not in (RO + ".Node", RO + ".Operator")
+            ob.decide("R7", "C05.2", f or tn, "node-overrides:%s.%s" % (ci.name, m), overrides,
                       "%s implements %s" % (ci.name, m), "%s does not implement %s" % (ci.name, m), None,
                       site=site_of(prog, f or tn, (f or tn).node), nontrivial=False)
 
@@ -233,8 +233,8 @@ def run(eng, rep, tier):
         f = prog.method("Regex", meth)
         s = interp.run_entry(f, REGEX)
         res = result_locs(s)
-        heads = [ev for ev in s.events if ev.kind == "write" and ev.attr == "head" and ev.recv is not None and (ev.recv.alias & res)]
-        sons = [ev for ev in s.events if ev.kind == "write" and ev.attr == "sons" and ev.recv is not None and (ev.recv.alias & res)]
+        heads = [ev for ev in own(s) if ev.kind == "write" and ev.attr == "head" and ev.recv is not None and (ev.recv.alias & res)]
+        sons = [ev for ev in own(s) if ev.kind == "write" and ev.attr == "sons" and ev.recv is not None and (ev.recv.alias & res)]
         okh = bool(heads) and all(ev.value is not None and ev.value.only(RO + "." + head) for ev in heads)
         ob.decide("R7", "C05.4", f, "head=" + head, okh, "%s builds a %s node" % (meth, head),
                   "%s does not build a %s node" % (meth, head), s, site=site_of(prog, f, f.node))
